@@ -1151,6 +1151,79 @@ pub fn run(rep: &mut Rep) {
     resumption_with_options(rep);
     requests_at_full_window(rep);
     torn_packets(rep);
+    limits_of_an_earlier_connection(rep);
+}
+
+/// What an earlier connection of the same Context announced (a small Maximum Packet Size, Receive Maximum 1) is history once
+/// a later connection is established - by connect() or at the end of an extended authentication exchange by authorize() -
+/// whose CONNACK announces nothing: every complete request is written again, whatever its size and however many are outstanding.
+fn limits_of_an_earlier_connection(rep: &mut Rep) {
+    let pubs = publish_specs(rep);
+    let big: Vec<PubSpec> = pubs.iter().filter(|s| s.topic.is_some() && s.payload.as_ref().map(|p| p.len() > 60 && p.len() < 70_000).unwrap_or(false)).cloned().collect();
+    let q1: Vec<PubSpec> = pubs.iter().filter(|s| s.eff_qos() > 0 && s.topic.is_some() && s.payload.as_ref().map(|p| p.len() < 1000).unwrap_or(true)).cloned().collect();
+    let subs = subscribe_specs(rep);
+    rep.note("limits of an earlier connection: first CONNACK with Maximum Packet Size 40 / 16 and Receive Maximum 1; connection ended (end-of-stream, server DISCONNECT, user DISCONNECT); second connection by connect() / through AUTH + authorize(), its CONNACK without limits; then a publish above the old size limit, three QoS>0 publishes outstanding at once, a subscribe: each written as exactly one packet with the caller's options");
+    if big.is_empty() || q1.is_empty() || subs.is_empty() {
+        return;
+    }
+    let mut idx = 98_000_000u64;
+    for via_auth in [false, true] {
+        for ending in 0..3u8 {
+            for (oi, old_m) in [40u32, 16].into_iter().enumerate() {
+                let id = format!("earlier-limits:{}:{ending}:{old_m}", via_auth as u8);
+                idx += 1;
+                if !rep.take(idx, &id) {
+                    continue;
+                }
+                let mut rng = Rng::new(rep.seed.wrapping_mul(331).wrapping_add(idx));
+                let mut sim = Sim::new(rep.seed);
+                sim.log_enabled = false;
+                sim.cmd(Cmd::Connect(ConnSpec::default()));
+                sim.settle();
+                sim.feed_packet(&rc::SPacket::Connack { session_present: false, reason: 0, props: vec![Prop::u32(39, old_m), Prop::u16(33, 1)] });
+                sim.settle();
+                sim.cmd(Cmd::Run);
+                sim.settle();
+                match ending {
+                    0 => sim.set_eof(),
+                    1 => sim.feed_packet(&rc::SPacket::Disconnect { reason: 0x8b, props: vec![], form: 1 }),
+                    _ => {
+                        sim.start_op(0, OpSpec::Disconnect(DiscSpec::default()));
+                    }
+                }
+                sim.settle();
+                sim.new_transport();
+                if via_auth {
+                    sim.cmd(Cmd::Connect(ConnSpec { auth_method: Some("m".into()), auth_data: Some(vec![1]), ..Default::default() }));
+                    sim.settle();
+                    sim.feed_packet(&rc::SPacket::Auth { reason: Some(0x18), props: vec![Prop::str(21, "m"), Prop::bin(22, b"c")] });
+                    sim.settle();
+                    sim.cmd(Cmd::Authorize(AuthSpec { reason: Some(0x18), method: Some("m".into()), data: Some(vec![2]), user_props: vec![] }));
+                    sim.settle();
+                } else {
+                    sim.cmd(Cmd::Connect(ConnSpec::default()));
+                    sim.settle();
+                }
+                sim.feed_packet(&rc::SPacket::Connack { session_present: false, reason: 0, props: if oi == 1 { vec![Prop::pair("k", "v")] } else { vec![] } });
+                sim.settle();
+                sim.cmd(Cmd::Run);
+                sim.settle();
+                sim.parse_wire();
+                let mut ses = Session { sim, used: 0, qos_inflight: 0 };
+                let b = big[rng.below(big.len())].clone();
+                run_request(rep, &mut ses, "PUBLISH", &id, OpSpec::Publish(b.clone()), expect_publish(&b));
+                for _ in 0..3 {
+                    let q = q1[rng.below(q1.len())].clone();
+                    run_request(rep, &mut ses, "PUBLISH", &id, OpSpec::Publish(q.clone()), expect_publish(&q));
+                }
+                let sb = subs[rng.below(subs.len())].clone();
+                run_request(rep, &mut ses, "SUBSCRIBE", &id, OpSpec::Subscribe(sb.clone()), expect_subscribe(&sb));
+                rep.add("evaluations", 1);
+                rep.add("requests_after_an_earlier_connection_with_limits", 5);
+                rep.distinct(&("earlier-limits", via_auth, ending, old_m));
+            }
+        }
+    }
 }
 
 /// One write call of the transport fails after it has accepted the first n bytes of a packet, and the transport works again
